@@ -2,8 +2,9 @@
    1. the opener rule of pubsub/controller/tracked-link.go trackLink;
    2. subscription handles of pubsub/floodsub/sub.go and the callback
       goroutines spawned by handleValidMessage (per-subscription mutex);
-   3. the Execute loop of pubsub/floodsub/floodsub.go: incSessions/initSet
-      pass, the intentional release of m.mtx, the sweep with pubbedChannels.
+   3. the Execute loop of pubsub/floodsub/floodsub.go: the loop body
+      (incSessions/initSet pass and sweep with pubbedChannels) is one m.mtx
+      region since /repo commit 4585b8b.
    No proofs in this file. *)
 From Bifrost Require Import Lib.Base Lib.Lex gen.Pubsub.
 
@@ -89,10 +90,11 @@ Fixpoint srun (st : sstate) (l : list sact) : sstate * list sobs :=
 
 (* ---------- 3. the Execute loop ---------- *)
 
+(* Since /repo commit 4585b8b the loop body is ONE m.mtx region: the
+   incSessions/initSet pass and the sweep see the same m.channels. *)
 Inductive phase :=
 | PIdle     (* waiting on wakeCh *)
-| PArmed    (* woken (or just started): waiting for the timer, next is the incSessions pass *)
-| PGap.     (* incSessions pass done, m.mtx released, next is the sweep *)
+| PArmed.   (* woken (or just started): waiting for the timer, next is the loop body *)
 
 Record lstate := LState {
   l_ch : list (nat * nat);            (* m.channels: key with the number of subscriptions below it (0 = released, not swept) *)
@@ -102,8 +104,7 @@ Record lstate := LState {
   l_all : list nat;                   (* every stream id ever added *)
   l_wire : list (nat * nat * bool);   (* subscription entries written, newest first: (stream, channel, subscribe) *)
   l_wake : bool;                      (* token in wakeCh *)
-  l_phase : phase;
-  l_ghost : bool                      (* ghost: a release in the gap emptied a channel that is not in pubbedChannels *)
+  l_phase : phase
 }.
 
 Inductive lact :=
@@ -112,8 +113,7 @@ Inductive lact :=
 | LAddPeer (p : nat)      (* AddPeerStream *)
 | LDropPeer (p : nat)     (* session goroutine exit: delete(m.peers) *)
 | LWake                   (* the loop takes the wake token *)
-| LInit                   (* first m.mtx region of the loop body *)
-| LSweep.                 (* second m.mtx region + writes of subChanges *)
+| LPass.                  (* the loop body: initSet to every incSession, sweep, writes of subChanges *)
 
 Definition mem_nat (x : nat) (l : list nat) : bool := existsb (Nat.eqb x) l.
 
@@ -156,62 +156,60 @@ Fixpoint sweep (chs : list (nat * nat)) (pubbed : list nat) : list (nat * bool) 
          else let '(c, p) := sweep chs' (ch :: pubbed) in ((ch, true) :: c, p))
   end.
 
+(* first half of the loop body: every incSession is written the non-empty channels and starts executing *)
+Definition pass_init (s : lstate) : lstate :=
+  let init := map (fun e => (fst e, true)) (filter (fun e => negb (Nat.eqb (snd e) 0)) (l_ch s)) in
+  LState (l_ch s) (l_pubbed s) [] (l_started s ++ l_inc s) (l_all s)
+         (bcast (l_inc s) init ++ l_wire s) (l_wake s) (l_phase s).
+
+(* second half, same lock region: sweep of m.channels, subChanges to every executing stream *)
+Definition pass_sweep (s : lstate) : lstate :=
+  let '(changes, pubbed') := sweep (l_ch s) (l_pubbed s) in
+  LState (filter (fun e => negb (Nat.eqb (snd e) 0)) (l_ch s)) pubbed' (l_inc s) (l_started s) (l_all s)
+         (bcast (l_started s) changes ++ l_wire s) (l_wake s) PIdle.
+
 Definition lstep (s : lstate) (a : lact) : lstate :=
   match a with
   | LSubscribe ch =>
       if has_key ch (l_ch s) then
         LState (set_key ch (S (nsubs ch (l_ch s))) (l_ch s)) (l_pubbed s) (l_inc s) (l_started s) (l_all s)
-               (l_wire s) (l_wake s) (l_phase s) (l_ghost s)
+               (l_wire s) (l_wake s) (l_phase s)
       else
         LState (set_key ch 1 (l_ch s)) (l_pubbed s) (l_inc s) (l_started s) (l_all s)
-               (l_wire s) true (l_phase s) (l_ghost s)
+               (l_wire s) true (l_phase s)
   | LRelease ch =>
       match nsubs ch (l_ch s) with
-      | O => LState (l_ch s) (l_pubbed s) (l_inc s) (l_started s) (l_all s) (l_wire s) true (l_phase s) (l_ghost s)
+      | O => LState (l_ch s) (l_pubbed s) (l_inc s) (l_started s) (l_all s) (l_wire s) true (l_phase s)
       | S k =>
           LState (set_key ch k (l_ch s)) (l_pubbed s) (l_inc s) (l_started s) (l_all s) (l_wire s)
                  (if Nat.eqb k 0 then true else l_wake s) (l_phase s)
-                 (l_ghost s ||
-                  (Nat.eqb k 0 && negb (mem_nat ch (l_pubbed s)) &&
-                   match l_phase s with PGap => true | _ => false end))
       end
   | LAddPeer p =>
       if mem_nat p (l_all s) then s
-      else LState (l_ch s) (l_pubbed s) (l_inc s ++ [p]) (l_started s) (p :: l_all s) (l_wire s) true (l_phase s) (l_ghost s)
+      else LState (l_ch s) (l_pubbed s) (l_inc s ++ [p]) (l_started s) (p :: l_all s) (l_wire s) true (l_phase s)
   | LDropPeer p =>
       LState (l_ch s) (l_pubbed s) (l_inc s) (filter (fun x => negb (Nat.eqb x p)) (l_started s)) (l_all s)
-             (l_wire s) (l_wake s) (l_phase s) (l_ghost s)
+             (l_wire s) (l_wake s) (l_phase s)
   | LWake =>
       match l_phase s with
       | PIdle => if l_wake s
-                 then LState (l_ch s) (l_pubbed s) (l_inc s) (l_started s) (l_all s) (l_wire s) false PArmed (l_ghost s)
+                 then LState (l_ch s) (l_pubbed s) (l_inc s) (l_started s) (l_all s) (l_wire s) false PArmed
                  else s
-      | _ => s
+      | PArmed => s
       end
-  | LInit =>
+  | LPass =>
       match l_phase s with
-      | PArmed =>
-          let init := map (fun e => (fst e, true)) (filter (fun e => negb (Nat.eqb (snd e) 0)) (l_ch s)) in
-          LState (l_ch s) (l_pubbed s) [] (l_started s ++ l_inc s) (l_all s)
-                 (bcast (l_inc s) init ++ l_wire s) (l_wake s) PGap (l_ghost s)
-      | _ => s
-      end
-  | LSweep =>
-      match l_phase s with
-      | PGap =>
-          let '(changes, pubbed') := sweep (l_ch s) (l_pubbed s) in
-          LState (filter (fun e => negb (Nat.eqb (snd e) 0)) (l_ch s)) pubbed' (l_inc s) (l_started s) (l_all s)
-                 (bcast (l_started s) changes ++ l_wire s) (l_wake s) PIdle (l_ghost s)
-      | _ => s
+      | PArmed => pass_sweep (pass_init s)
+      | PIdle => s
       end
   end.
 
 Definition lrun (s : lstate) (l : list lact) : lstate := fold_left lstep l s.
 
 (* Execute has just been started: the loop body runs once without a wake *)
-Definition linit : lstate := LState [] [] [] [] [] [] false PArmed false.
+Definition linit : lstate := LState [] [] [] [] [] [] false PArmed.
 
 Definition lquiescent (s : lstate) : Prop := l_phase s = PIdle /\ l_wake s = false.
 
-(* one full pass of the loop, used by the canonical schedule of the correspondence *)
-Definition lpass (s : lstate) : lstate := lstep (lstep (lstep s LWake) LInit) LSweep.
+(* one full turn of the loop, used by the canonical schedule of the correspondence *)
+Definition lpass (s : lstate) : lstate := lstep (lstep s LWake) LPass.
